@@ -65,19 +65,20 @@ package absnfs
 // ---- strengthened after seeded changes that moved the invalidations before the backend operation, cached any
 // lookup failure as "absent", and let a CREATE that failed half-way leave its file behind
 // an entry is dropped only once the backend has been changed (a lookup racing with the operation cannot put a stale
-// entry back afterwards)
+// entry back afterwards) - which is also what C29's "afterwards the caches agree with the backend" needs of each
+// operation, so the clauses are in C29's check as well
 //@ also AbsfsNFS.RenameWithContext
-//@ callassert AttrCache.Invalidate : [after-the-backend-change] {C02, C03} mutlog != old(mutlog)
+//@ callassert AttrCache.Invalidate : [after-the-backend-change] {C02, C03, C29} mutlog != old(mutlog)
 //@ also AbsfsNFS.RemoveWithContext
-//@ callassert AttrCache.Invalidate : [after-the-backend-change] {C02} mutlog != old(mutlog)
+//@ callassert AttrCache.Invalidate : [after-the-backend-change] {C02, C29} mutlog != old(mutlog)
 //@ also AbsfsNFS.CreateWithContext
-//@ callassert AttrCache.Invalidate : [after-the-backend-change] {C02} mutlog != old(mutlog)
+//@ callassert AttrCache.Invalidate : [after-the-backend-change] {C02, C29} mutlog != old(mutlog)
 // a CREATE that fails after the backend made the object (close or chmod failed) removes it again: a failed
 // request leaves the tree as it was
 // (failure before the ownership step, i.e. close or chmod failed after the backend made the object)
 //@ ensures [failed-create-cleans-up] {C02} !isnil(result1) && chowns == old(chowns) && mutlog > old(mutlog) + 1 ==> removes > old(removes)
 //@ also AbsfsNFS.Symlink
-//@ callassert AttrCache.Invalidate : [after-the-backend-change] {C02} mutlog != old(mutlog)
+//@ callassert AttrCache.Invalidate : [after-the-backend-change] {C02, C29} mutlog != old(mutlog)
 // "missing" is remembered only when the backend said the path does not exist (not for any other lookup failure)
 //@ also AbsfsNFS.LookupWithContext
 //@ callassert AttrCache.PutNegative : [negative-entry-only-for-not-found] {C02, C03} notexist(err)
